@@ -96,7 +96,9 @@ struct CaseCtx{
     void count(std::string const &k, long long n = 1){ counters[k] += n; }
     void sig(std::string const &s){ if (sigs.size() < 64) sigs.insert(s); }
     // report a violation: key = stable class (clause + site), detail = witness
-    void viol(std::string const &key, std::string const &detail_json){
+    std::function<std::string(std::string const&)> key_filter; // lets a monitor refine a violation key at the moment it is emitted (e.g. classify a solver failure)
+    void viol(std::string const &key0, std::string const &detail_json){
+        std::string key = key_filter ? key_filter(key0) : key0;
         nviol++;
         if (viol_keys.count(key) && nviol > 4) return; // do not flood
         viol_keys.insert(key);
